@@ -156,15 +156,20 @@ Fixpoint list_eqb_nat (a b : list nat) : bool :=
 Definition tensor_eqb (t : tensor Z) (shape : list nat) (data : list Z) : bool :=
   list_eqb_nat (t_shape t) shape && list_eqb_z (t_data t) data.
 
-(* model's _blockify on arange == implementation's blocked tensor, and the model's _deblockify of
-   the implementation's blocked tensor == arange *)
+(* model's _blockify on arange == implementation's blocked tensor *)
 Definition chk_blockify_tensor (shape : list Z) (b : Z) (blocked_shape blocked_flat : list Z) : bool :=
   let meta := blocks_metadata b shape in
-  let sh := map Z.to_nat shape in
-  let x := mkT sh (zrange (prod_z shape)) in
-  let bsh := map Z.to_nat blocked_shape in
-  tensor_eqb (blockify 0%Z meta x) bsh blocked_flat &&
-  tensor_eqb (deblockify 0%Z meta (mkT bsh blocked_flat)) sh (t_data x).
+  let x := mkT (map Z.to_nat shape) (zrange (prod_z shape)) in
+  tensor_eqb (blockify 0%Z meta x) (map Z.to_nat blocked_shape) blocked_flat.
+
+(* the model's _deblockify of the implementation's blocked tensor == the implementation's
+   _deblockify of it == the original arange tensor *)
+Definition chk_deblockify_tensor (shape : list Z) (b : Z) (blocked_shape blocked_flat : list Z)
+           (back_shape back_flat : list Z) : bool :=
+  let meta := blocks_metadata b shape in
+  let back := deblockify 0%Z meta (mkT (map Z.to_nat blocked_shape) blocked_flat) in
+  tensor_eqb back (map Z.to_nat back_shape) back_flat &&
+  tensor_eqb back (map Z.to_nat shape) (zrange (prod_z shape)).
 
 (* every block of the model's blockified tensor is the contiguous sub-tensor *)
 Definition chk_blocks_subtensor (shape : list Z) (b : Z) : bool :=
@@ -176,9 +181,12 @@ Definition chk_blocks_subtensor (shape : list Z) (b : Z) : bool :=
           (seq 0 (Z.to_nat (bm_num_blocks meta))).
 
 (* reshaper: the worker feeds arange(1, n+1) so that padding zeros are distinguishable *)
-Definition chk_reshaper_tensor (shape : list Z) (b m : Z) (merged_shape merged_flat : list Z) : bool :=
-  let sh := map Z.to_nat shape in
-  let x := mkT sh (map (fun k => k + 1)%Z (zrange (prod_z shape))) in
-  let msh := map Z.to_nat merged_shape in
-  tensor_eqb (merge 0%Z m b shape x) msh merged_flat &&
-  tensor_eqb (unmerge 0%Z m b shape (mkT msh merged_flat)) sh (t_data x).
+Definition chk_merge_tensor (shape : list Z) (b m : Z) (merged_shape merged_flat : list Z) : bool :=
+  let x := mkT (map Z.to_nat shape) (map (fun k => k + 1)%Z (zrange (prod_z shape))) in
+  tensor_eqb (merge 0%Z m b shape x) (map Z.to_nat merged_shape) merged_flat.
+
+Definition chk_unmerge_tensor (shape : list Z) (b m : Z) (merged_shape merged_flat : list Z)
+           (back_shape back_flat : list Z) : bool :=
+  let back := unmerge 0%Z m b shape (mkT (map Z.to_nat merged_shape) merged_flat) in
+  tensor_eqb back (map Z.to_nat back_shape) back_flat &&
+  tensor_eqb back (map Z.to_nat shape) (map (fun k => k + 1)%Z (zrange (prod_z shape))).
